@@ -7,6 +7,11 @@ configuration the harness builds: two optimisers in a `MetaOptimizerInfos`, a
 `SimpleMultiDimensions` for a first group of parameter names and a `BfgsMultiDimensions` for a second
 one (possibly empty), both with the same iteration type (`step` / `full`).
 
+(Round 3 repairs: the shortcut "a single optimiser has parameters: tolerance reached" applies only when
+that optimiser is iterated in `full` mode and has been run with the final tolerance.  Other configurations
+— Powell / conjugate gradient members, a single member — are built by the harness and explored through
+the predicates only.)
+
 The decimal logarithm is not an operation of `Scalar`: it is a parameter `log10` of the model (the
 driver passes libm's; the schedule of tolerances it feeds plays no role in any theorem).
 -/
